@@ -7,6 +7,7 @@ package sim
 import (
 	"context"
 	"fmt"
+	"os"
 	"time"
 
 	"github.com/streamingfast/bstream"
@@ -147,6 +148,9 @@ func (rr *refRunner) step(b *CBlock, output string) *RefBlock {
 		}
 	}
 	rb.Stores = snapshotStores(rr.pipe)
+	if os.Getenv("SIM_TRACE_STORES") == "1" {
+		fmt.Printf("R0 after %s: out=%q %s\n", b.ID, rb.Out, fmtStores(rb.Stores))
+	}
 	return rb
 }
 
